@@ -288,6 +288,27 @@ def case_transposed_per_axis_operands():
     return None
 
 
+def case_ops_with_own_transpose():
+    """a square tensor quantized per axis against its own transpose: the two scales live in the same storage"""
+    import optimum.quanto as q
+    torch.manual_seed(0)
+    for n in (4, 7):
+        for axis in (0, -1):
+            w = torch.randn(n, n) * torch.logspace(-1, 1, n).reshape((n, 1) if axis == 0 else (1, n))
+            x = q.quantize_weight(w, q.qint8, axis)
+            y = x.t()
+            for name, fn in (("lt", lambda a, b: torch.lt(a, b)), ("cat", lambda a, b: torch.cat([a, b])), ("stack", lambda a, b: torch.stack([a, b]))):
+                try:
+                    r = fn(x, y)
+                except Exception as e:  # noqa
+                    return f"{name}(x, x.t()) raises {exc_name(e)}"
+                ref = fn(_deq(x), _deq(y))
+                got = _deq(r) if hasattr(r, "dequantize") else r
+                if tuple(got.shape) != tuple(ref.shape) or not torch.equal(got, ref):
+                    return f"{name}(x, x.t()) on a per-axis tensor (axis {axis}, n={n}) differs from the float program"
+    return None
+
+
 def case_copy_into_module_output():
     """the quantized output of a module holds the module's `output_scale` buffer itself: writing it in place rescales the module"""
     import optimum.quanto as q
@@ -367,6 +388,7 @@ CASES = {
     "copy_-into-module-output": case_copy_into_module_output,
     "mm-expanded-operands": case_mm_expanded_operands,
     "transposed-per-axis-operands": case_transposed_per_axis_operands,
+    "ops-with-own-transpose": case_ops_with_own_transpose,
     "mm-contracted-axis": case_mm_contracted_axis,
     "mm-contracted-axis-right": case_mm_contracted_axis_right,
     "linear-weight-last-axis": case_linear_weight_last_axis,
